@@ -499,9 +499,18 @@ func checkGrammar(ctx *core.Ctx, who string, bi int, rb *cm.RootBlock) {
 					}
 				}
 			case cm.EmphasisKind, cm.StrongKind:
-				for _, ch := range kids {
-					if !isPhrasing(ch.Inline().Kind()) {
-						ctx.Record("doc_rule:"+k.String()+">"+core.KindName(ch), "%s", core.Quote(src))
+				// What a paragraph or heading holds, it holds at any depth: destinations, titles
+				// and labels may only stand at the end of a link or image (judged since seeded
+				// change C05-g: emphasis opened inside an image description and closed after
+				// the image swallowed the image's destination).
+				for i, ch := range kids {
+					if ck := ch.Inline().Kind(); !isPhrasing(ck) {
+						code := "child_kind"
+						if ck == cm.UnparsedKind {
+							code = "unparsed"
+						}
+						fail(code, "%s child %d is %s", k, i, core.KindName(ch))
+						break
 					}
 				}
 			case cm.CodeSpanKind:
@@ -752,10 +761,12 @@ func shapeError(n cm.Node, t []byte) string {
 	case cm.HardLineBreakKind:
 		if len(t) >= 1 && t[0] == '\\' {
 			rest := t[1:]
-			if len(rest) == 0 || bytes.Equal(rest, []byte("\n")) || bytes.Equal(rest, []byte("\r")) || bytes.Equal(rest, []byte("\r\n")) {
+			// "a backslash or 2+ spaces with the line ending": the line ending belongs to both
+			// spellings (tightened after seeded change C13-h, which left a bare CR out of the span)
+			if bytes.Equal(rest, []byte("\n")) || bytes.Equal(rest, []byte("\r")) || bytes.Equal(rest, []byte("\r\n")) {
 				return ""
 			}
-			return "backslash followed by something other than a line ending"
+			return "backslash not followed by exactly the line ending"
 		}
 		k := leadingRun(t, ' ')
 		if k >= 2 {
